@@ -1,4 +1,4 @@
-import MorfuseModel.Archive.RoundTrip
+import MorfuseModel.Archive.Sample
 /-!
 # C10 â€” archives round-trip values and object graphs faithfully
 
@@ -67,30 +67,6 @@ theorem C10_index_injective (T : List Lbl) (a b : Lbl) (ha : a âˆˆ T) (hb : b âˆ
   simp only [idxIn]; omega
 
 /-! ### non-vacuity -/
-
-/-- a graph with a forward reference (1 before its object), a backward one, a self reference inside the
-    body of object 2, a null pointer and a position-only object -/
-def sample : List Item :=
-  [.prim .u8 255, .str [104, 105], .str [], .ptr true 1, .object 1 [76] [.prim .u8 0], .ptr false 1,
-   .object 2 [86] [.ptr false 2, .ptr true 3], .ptr false 0, .position 3, .raw [0, 1, 2]]
-
-def sampleInfo : Info := { header := [77, 70, 85, 83], name := [97], version := 1 }
-
-theorem sample_wf (cfg : Cfg) (h : 1000 < cfg.allocLimit) : WF cfg [[76], [86]] sampleInfo sample where
-  items := by
-    simp [sample, WFItems, WFItem, Prim.width, strAlloc, getClass, cstr, eqi, upc]
-    omega
-  targets := by decide
-  nonnull := by decide
-  count := by decide
-  table := by
-    have : (encItems [] sample).1.length = 3 := by decide
-    omega
-  size := by
-    have : (encode sampleInfo sample).length = 210 := by set_option maxRecDepth 100000 in decide
-    omega
-  version := by decide
-  name := by simp [sampleInfo, strAlloc]; omega
 
 example : decode Cfg.legacy [[76], [86]] sampleInfo (schemaOf sample) (encode sampleInfo sample) = .ok sample :=
   C10_roundtrip _ _ _ _ (sample_wf _ (by decide))
